@@ -27,6 +27,9 @@ pub struct Params {
     pub auth: bool,
     /// Maximum Packet Size the CLIENT announces in CONNECT (limits what the server may send, never what the client sends)
     pub own_max: Option<u32>,
+    /// the handshake is not performed by `reset` but by a later `handshake` step (operations may be started, and polled, before
+    /// connect() has completed: their requests wait in the channel)
+    pub defer: bool,
     /// packet identifiers consumed (by untraced, completed UNSUBSCRIBE exchanges) before the traced part of the run starts
     pub burn: u32,
 }
@@ -46,6 +49,7 @@ impl Default for Params {
             auth: false,
             burn: 0,
             own_max: None,
+            defer: false,
         }
     }
 }
@@ -53,7 +57,7 @@ impl Default for Params {
 impl Params {
     pub fn to_json(&self) -> Value {
         json!({"a": "reset", "run": self.run, "fam": self.fam, "R": self.r, "M": self.m,
-               "sei_connect": self.sei_connect, "sei_connack": self.sei_connack, "disc": self.disc, "log_io": self.log_io, "auth": self.auth, "burn": self.burn, "own_max": self.own_max})
+               "sei_connect": self.sei_connect, "sei_connack": self.sei_connack, "disc": self.disc, "log_io": self.log_io, "auth": self.auth, "burn": self.burn, "own_max": self.own_max, "defer": self.defer})
     }
     pub fn from_json(v: &Value) -> Params {
         Params {
@@ -68,6 +72,7 @@ impl Params {
             auth: v["auth"].as_bool().unwrap_or(false),
             burn: v["burn"].as_u64().unwrap_or(0) as u32,
             own_max: v["own_max"].as_u64().map(|x| x as u32),
+            defer: v["defer"].as_bool().unwrap_or(false),
             ..Default::default()
         }
     }
@@ -179,8 +184,8 @@ pub fn start(p: &Params) -> Sim {
     let mut s = Sim::new();
     s.log_io = p.log_io;
     s.pipe.0.lock().unwrap().log_io = p.log_io;
-    let ok = handshake(&mut s, p);
-    if ok && p.burn > 0 {
+    let ok = if p.defer { true } else { handshake(&mut s, p) };
+    if ok && p.burn > 0 && !p.defer {
         burn(&mut s, p.burn);
     }
     let sei = effective_sei(p);
@@ -485,6 +490,16 @@ pub fn exec_step(s: &mut Sim, rng: &mut StdRng, st: &Value) -> bool {
             s.emit(json!({"e": "markdisc", "secs": secs}));
             true
         }
+        "handshake" => {
+            // the deferred handshake of a run whose `reset` carried "defer" (untraced like the ordinary one; a failure is a note
+            // line without specification action, i.e. a tool-level stop, since the run cannot go on)
+            let p = Params::from_json(st);
+            let ok = handshake(s, &p);
+            if !ok {
+                s.emit(json!({"e": "reconnect", "R": p.r.unwrap_or(65535), "M": p.m.unwrap_or(0), "sei": 0, "seik": "zero", "ok": 0}));
+            }
+            ok
+        }
         "burnsub" => {
             // n complete, untraced subscribe() calls (SUBACK granted, stream dropped at once)
             let n = st["n"].as_u64().unwrap_or(0);
@@ -609,7 +624,7 @@ pub fn profile(name: &str) -> WalkCfg {
     };
     match name {
         "ops" => base,
-        "quota" => WalkCfg { kinds: vec![("pub0", 1), ("pub1", 6), ("pub2", 6), ("ping", 1)], w_inbound: 0, max_ops: 8, fail_pct: 40, ..base },
+        "quota" => WalkCfg { kinds: vec![("pub0", 1), ("pub1", 6), ("pub2", 6), ("ping", 1), ("unsub", 1), ("sub", 1)], w_inbound: 0, max_ops: 8, fail_pct: 40, ..base },
         "inbound" => WalkCfg {
             w_call: 10, w_ack: 15, w_inbound: 40, w_dropst: 3, kinds: vec![("sub", 6), ("unsub", 2), ("pub1", 1), ("ping", 1)],
             multi_sid_pct: 10, ..base
